@@ -326,8 +326,68 @@ def special_angle_pairs():
     return [copy.deepcopy(t) for t in out]
 
 
+def history_cases(ctx, sf):
+    """state kept between comparisons: a template with a free parameter is compared with a fixed reference, re-bound
+    (`bind_params`, which does not touch the circuit), and compared again — each answer must be about the values bound NOW.
+    Also: the same two Program objects compared repeatedly, in both directions, with compare_params on and off."""
+    rng = ctx.rng
+    for it in range(ctx.n(30, 300)):
+        n = rng.randint(1, 3)
+        spec = progs.rand_circuit(rng, n, rng.randint(1, 5), p_meas=0.0, allow=("gate1", "gate2"),
+                                  classes=dict(gate1=["Sgate", "Rgate", "Dgate", "Pgate"], gate2=["BSgate", "S2gate", "CZgate"]))
+        cand = [i for i, o in enumerate(spec["ops"]) if o.get("pars")]
+        if not cand:
+            continue
+        i = rng.choice(cand)
+        r0 = spec["ops"][i]["pars"][0]
+        tmpl = copy.deepcopy(spec)
+        tmpl["ops"][i]["pars"][0] = {"f": "r"}
+        p1, _ = progs.build(tmpl, "t")
+        p2, _ = progs.build(spec, "ref")
+        vals = [r0, r0 + rng.choice([0.25, -0.5, 0.375]), r0, r0 - 0.125, r0 + 1e-9]
+        rp = dict(kind="history", template=tmpl, reference=spec, values=vals)
+        ctx.oracle_cases += 1
+        ctx.count("history:rebind", dict(t=tmpl, v=vals), True, sample=rp)
+        try:
+            for step, v in enumerate(vals):
+                p1.bind_params({"r": v})
+                same = abs(v - r0) <= 1e-6
+                for a, b, tag in ((p1, p2, "template~reference"), (p2, p1, "reference~template")):
+                    got = bool(a.equivalence(b))
+                    ctx.tally(f"history:equiv={got}:same={same}")
+                    if got and not same:
+                        ok, msg = same_state_bound(sf, p1, p2, {"r": v})
+                        if not ok:
+                            ctx.fail("equivalent-unsound:history", f"after re-binding the free parameter to {v} (step {step}; "
+                                     f"earlier values {vals[:step]}) {tag} is reported equivalent although {msg}", rp)
+                            return
+                    if same and not got:
+                        ctx.fail("equiv-history-dependent", f"the template bound to the reference's own value {v} (step {step}, "
+                                 f"after {vals[:step]}) is reported inequivalent ({tag}); the same question was answered True before"
+                                 if step else f"the template bound to the reference's own value is reported inequivalent ({tag})", rp)
+                        return
+                    # what else is asked in between varies (a cache may be keyed on it): nothing / the structural question
+                    if it % 3 == 1 and not bool(a.equivalence(b, compare_params=False)):
+                        ctx.fail("equiv-history-dependent", f"compare_params=False: same structure reported inequivalent at step {step}", rp)
+                        return
+                    if it % 3 == 2:
+                        bool(a == b); bool(a.equivalence(a)); bool(b.equivalence(b))
+        except Exception as e:  # noqa: BLE001
+            ctx.fail(f"history-raises:{type(e).__name__}", f"comparison after re-binding raised {type(e).__name__}: {e}", rp)
+
+
+def same_state_bound(sf, p1, p2, args):
+    eng = sf.Engine("gaussian")
+    s1 = eng.run(p1, args=args).state
+    eng2 = sf.Engine("gaussian")
+    s2 = eng2.run(p2).state
+    d = max(np.max(np.abs(s1.means() - s2.means()), initial=0), np.max(np.abs(s1.cov() - s2.cov()), initial=0))
+    return d < 1e-5, f"state distance {d:.3g}"
+
+
 def run(ctx, sf):
     reqs, pending = [], []
+    history_cases(ctx, sf)
     for base, kind, var in special_angle_pairs():
         one_pair(ctx, sf, base, kind, var, reqs, pending, gaussian_only=True)
     for base, kind, var in corpus():
@@ -351,5 +411,17 @@ def search(ctx, sf):
 def replay(ctx, rp):
     import strawberryfields as sf
     n0 = len(ctx.failures)
+    if rp.get("kind") == "history":
+        p1, _ = progs.build(rp["template"], "t")
+        p2, _ = progs.build(rp["reference"], "ref")
+        r0 = rp["values"][0]
+        for v in rp["values"]:
+            p1.bind_params({"r": v})
+            got = bool(p1.equivalence(p2)) or bool(p2.equivalence(p1))
+            if got and abs(v - r0) > 1e-6 and not same_state_bound(sf, p1, p2, {"r": v})[0]:
+                ctx.fail("equivalent-unsound:history", f"reported equivalent at r={v}", rp)
+            if not got and abs(v - r0) <= 1e-6:
+                ctx.fail("equiv-history-dependent", f"reported inequivalent at r={v}", rp)
+        return len(ctx.failures) > n0
     one_pair(ctx, sf, rp["base"], rp["vkind"], rp["variant"], [], [], rp.get("gaussian_only", False))
     return len(ctx.failures) > n0
